@@ -116,19 +116,28 @@ def build_region(case, acc_name):
             if k[1] is None:
                 g = mk_generic(list(outer.args[:2]), [i8, i8, i32],
                                lambda a: kernel.MacOp(operands=[a[0], a[1]], result_types=[i32]),
-                               out_elem if case["post"] is None else i32)
+                               out_elem if case["post"] is None and not case.get("mid", 0) else i32)
             else:
                 za, zb = k[1]
                 nin = case["nin"]
                 zps = [test.TestOp(result_types=[i32]) for _ in range(nin - 2)]
                 g = mk_generic(list(outer.args[:2]) + [z.res[0] for z in zps], [i8, i8] + [i32] * (nin - 2) + [i32],
                                lambda a: kernel.QMacOp(operands=[a[0], a[1], a[za], a[zb]], result_types=[i32]),
-                               out_elem if case["post"] is None else i32)
+                               out_elem if case["post"] is None and not case.get("mid", 0) else i32)
             body_ops = [g]
             last = g
+            for _ in range(case.get("mid", 0)):
+                # fused bias add: (matmul result, C stream) -> i32, possibly the last generic of the region
+                is_last = case["post"] is None and _ == case.get("mid", 0) - 1
+                cin = outer.args[3] if nop > 3 else outer.args[0]
+                ga = mk_generic([last.results[0], cin], [i32, i32, i32],
+                                lambda a: kernel.AddOp(operands=[a[0], a[1]], result_types=[i32]),
+                                out_elem if is_last else i32)
+                body_ops.append(ga)
+                last = ga
             if case["post"] is not None:
                 r = case["post"]
-                g2 = mk_generic([g.results[0]], [i32, out_elem], lambda a: mk_rescale(a[0], out_elem, r), out_elem)
+                g2 = mk_generic([last.results[0]], [i32, out_elem], lambda a: mk_rescale(a[0], out_elem, r), out_elem)
                 body_ops.append(g2)
                 last = g2
             body_ops.append(dart.YieldOp(last))
@@ -525,6 +534,8 @@ def gen_gemmx(rng, malformed=False, short=False):
             nin = rng.choice([4, 4, 5])
             zp = [rng.randint(2, nin - 1), rng.randint(2, nin - 1)]
         kernel = ["mac", zp]
+        # region shapes: (q)mac | (q)mac->rescale | (q)mac->add | (q)mac->add->rescale, i8 and i32 outputs
+        mid = 1 if rng.random() < 0.4 else 0
         if i8 and rng.random() < 0.7:
             post = gen_rescale(rng, n, short_ok=short)
         # make the streams of one operation consistent: the output pattern walks a sub-nest of A's loops
@@ -548,7 +559,7 @@ def gen_gemmx(rng, malformed=False, short=False):
                         ts.append(0)
                 op["pats"][oi] = {"ub": ub, "ts": ts, "ss": op["pats"][oi]["ss"]}
         case = {"kind": "gemmx", "cfg": cfg, "n": n, "m": rng.choice([4, 8]), "k": rng.choice([4, 8]), "op": op,
-                "kernel": kernel, "i8out": i8, "post": post, "nin": nin}
+                "kernel": kernel, "i8out": i8, "post": post, "nin": nin, "mid": mid}
         return case
     if r < 0.93:
         rs = gen_rescale(rng, n)
@@ -580,6 +591,27 @@ def gen_xdma(rng, malformed=False, notgeneric=False):
     return {"kind": "xdma", "cfg": cfg, "op": op, "kernel": kernel}
 
 
+def gemmx_shapes(rng):
+    """(q)mac, (q)mac->rescale, (q)mac->add, (q)mac->add->rescale, (q)mac->add->add->rescale on the default geometry"""
+    # every supported gemmx region shape x output type x per-tensor / per-channel rescale on the default geometry
+    for zp in (None, [2, 3]):
+        for mid in (0, 1, 2):
+            for i8 in (False, True):
+                for per_channel in ((None,) if not i8 else (None, False, True)):
+                    cfg = [dict(s) for s in GEMMX_DEFAULT]
+                    op = gen_streamop(rng, cfg)
+                    op["pats"][2 if i8 else 4] = {"ub": op["pats"][0]["ub"][:2], "ts": [4104, 0][:len(op["pats"][0]["ub"][:2])],
+                                                  "ss": op["pats"][2 if i8 else 4]["ss"]}
+                    post = None
+                    if per_channel is not None:
+                        post = gen_rescale(rng, 8)
+                        ln = 8 if per_channel else 1
+                        post["shifts"] = [rng.randint(1, 60) for _ in range(ln)]
+                        post["mults"] = [rng.randint(1, 2 ** 30) for _ in range(ln)]
+                    yield {"kind": "gemmx", "cfg": cfg, "n": 8, "m": 8, "k": 8, "op": op, "kernel": ["mac", zp],
+                           "i8out": i8, "post": post, "nin": 2 if zp is None else 4, "mid": mid}
+
+
 def exhaustive_small(rng):
     """every option subset x (1..2 streamers) x flags in {n,i,r}^(1..2) for the regular streamer (alu wrapper) and
     every extension subset for xdma, one marker op each"""
@@ -591,6 +623,7 @@ def exhaustive_small(rng):
                     for sd in ([4], [8, 4]):
                         cfg = [{"t": list(flags), "s": sd, "o": list(o)}, {"t": ["n", "r"], "s": [4], "o": list(o[::-1])}]
                         yield {"kind": "alu", "cfg": cfg, "op": gen_streamop(rng, cfg)}
+    yield from gemmx_shapes(rng)
     exts = [x for x in XDMA_OPTS]
     for mask in range(1 << len(exts)):
         o = [e for i, e in enumerate(exts) if mask >> i & 1]
@@ -627,6 +660,8 @@ class C08(Prop):
     def cases(self, rng, tier):
         n = 900 if tier == "quick" else 8000
         yield {"kind": "hwpe"}
+        if tier != "thorough":
+            yield from gemmx_shapes(rng)
         if tier == "thorough":
             yield from exhaustive_small(rng)
         for i in range(n):
@@ -657,8 +692,12 @@ class C08(Prop):
             kern = case["kernel"]
             if kern[0] == "rescale":
                 kern = ["rescale", dr_data(kern[1])]
+            # the region body as a chain of generics: first kernel, fused bias adds, trailing rescale
+            generics = [kern] + [["add"]] * case.get("mid", 0)
+            if case["post"] is not None:
+                generics.append(["rescale", dr_data(case["post"])])
             return [{"fn": "c08.gemmx", "args": {"cfg": case["cfg"], "n": case["n"], "fixed": FIXED, "op": case["op"],
-                                                  "kernel": kern, "i8out": case["i8out"], "post": dr_data(case["post"])}}]
+                                                  "generics": generics, "i8out": case["i8out"]}}]
         if k == "xdma":
             return [{"fn": "c08.xdma", "args": {"cfg": case["cfg"], "fixed": FIXED, "op": case["op"],
                                                  "kernel": case["kernel"]}}]
@@ -731,6 +770,14 @@ class C08(Prop):
                 out.append({"what": f"register {name} receives {got:#x}, its name means {want & MASK:#x}", "finding": fid})
                 if fid is None:
                     break
+        if kind == "gemmx" and not out:
+            # kernel loop counts agree with the number of temporal steps of stream A (when the streams of the
+            # operation are consistent: the output loops are a sub-nest of A's, i.e. M divides steps(A))
+            byname = {n: ev(v) for n, v in zip(fields, vals)}
+            steps_a = prod(case["op"]["pats"][0]["ub"])
+            kk, nn, mm = byname.get("K"), byname.get("N"), byname.get("M")
+            if None not in (kk, nn, mm) and mm != 0 and steps_a % mm == 0 and (kk * nn * mm) & MASK != steps_a & MASK:
+                out.append({"what": f"K*N*M = {kk}*{nn}*{mm} but stream A makes {steps_a} temporal steps", "finding": None})
         seen = set()
         res = []
         for o in out:
@@ -756,7 +803,8 @@ class C08(Prop):
     def stats_key(self, case, impl_out):
         k = case["kind"]
         if k == "gemmx":
-            k += ":" + case["kernel"][0] + (":i8" if case["i8out"] else ":i32") + (":post" if case.get("post") else "")
+            k += (":" + case["kernel"][0] + (":i8" if case["i8out"] else ":i32") + (":add" * case.get("mid", 0))
+                  + (":post" if case.get("post") else ""))
         if k == "xdma":
             k += ":" + case["kernel"][0]
         if isinstance(impl_out, dict) and "raised" in impl_out:
@@ -785,6 +833,8 @@ class C08(Prop):
             yield dict(case, op=dict(op, zero=[False] * len(op["zero"])))
         if case.get("post") is not None:
             yield dict(case, post=None)
+        if case.get("mid"):
+            yield dict(case, mid=0)
 
 
 PROP = C08()
